@@ -1,5 +1,6 @@
 import ITree.Lemmas.Storage
 import ITree.Lemmas.Refine
+import ITree.Lemmas.KHistory
 /-!
 # C11 — arena slots are never double-used or lost; storage bounded by the peak population
 -/
@@ -107,6 +108,14 @@ theorem ReachP.growth {c : Nat} {st : St V} {pk : Nat} (h : ReachP c st pk) : Gr
 `max(max(c,8), 3·(peak+1))` slots, `peak` being the largest number of entries ever stored at once -/
 theorem C11_storage_bound {c : Nat} {st : St V} {pk : Nat} (h : ReachP c st pk) :
     st.pool.bufLen ≤ max (max c 8) (3 * (pk + 1)) := h.growth.buf_le
+
+/-- the expiring-key tree: the same partition in every state reachable by an in-contract history
+(lazy removals during queries, the export purge and clear included) -/
+theorem C11_key_partition {c : Nat} {st : St V} {S : List (Ent V)} {last : Option Int}
+    (h : KReach c st S last) :
+    (0 :: (st.tree.slots ++ st.pool.unused)).Perm (List.range st.pool.bufLen) ∧
+      1 + st.tree.size + st.pool.unused.length = st.pool.bufLen :=
+  ⟨h.inv.1.slots.1, h.inv.1.slots.count⟩
 
 /-! non-vacuity -/
 example : ∃ st : St Nat, ReachP 0 st 1 ∧ st.pool.bufLen = 8 :=
